@@ -604,7 +604,9 @@ func runC06(r *rt.Runner) {
 			for ft := range mf.feat {
 				c.Count("feature: " + ft)
 			}
-			c.Nontrivial(data, func() string { return fmt.Sprintf("%d glyphs, %s, lenIV %d, %d subrs", len(mf.w.Glyphs), mf.lay.Container, mf.lay.LenIV, len(mf.lay.Subrs)) })
+			c.Nontrivial(data, func() string {
+				return fmt.Sprintf("%d glyphs, %s, lenIV %d, %d subrs", len(mf.w.Glyphs), mf.lay.Container, mf.lay.LenIV, len(mf.lay.Subrs))
+			})
 		})
 	}
 }
